@@ -1,5 +1,6 @@
 import ColaVerif.Lemmas.ArnoldiWitness
 import ColaVerif.Lemmas.Hess3Eigs
+import ColaVerif.Lemmas.ArnoldiInputs3
 
 /-!
 # C15 — Arnoldi returns an orthonormal Krylov basis satisfying the Arnoldi relation
@@ -54,6 +55,12 @@ ROUND 2 (second half of this file; nothing above was changed):
   (`Arnoldi.arnoldiEigs`, now also executed by the driver), `xnp.eig` under the contract `EigPairs` / `EigComplete`;
 * `C15_hess3_witness` (3 × 3 non-symmetric system, all hypothesis bundles incl. the contract of `eig` hold, spectrum
   `{1, 1 ± √5}` returned), `C15_noClipInput_counter_witness`.
+ROUND 3 (ranges corrected; old names are corollaries):
+* `C15_runs_to_cap_of_inputs`, `C15_eigs_complete_of_inputs` — the growth condition on the Krylov distances is asked
+  only BEFORE the last step (`i + 1 < cap`); the round-2 statements `C15_runs_to_cap_input` (satisfiable only for
+  `cap <` grade) and `C15_eigs_complete_input` (unsatisfiable: `C15_wide_range_unsatisfiable`) follow from them;
+* `C15_hess3_inputs_witness`, `C15_hess3_eigs_complete_witness` — both corrected bundles hold on the 3 × 3 system
+  (`d = 1, 2, 6, 0`), and the conclusion is exhibited for the eigenpair `(1, e₀ − 2 e₂)`.
 CONTRACT that remains: `xnp.eig` (LAPACK `geev`) via `EigPairs` / `EigComplete` on the one matrix it is given —
 eigenvalues over the scalar field of the model only (a real run sees the real eigenvalues).
 -/
@@ -313,16 +320,30 @@ theorem C15_partial_input (A : E →ₗ[𝕜] E) (n M : Nat) (tol : ℝ) (tolPos
   exact C15_partial A n M tol tolPos vs startNonzero
     (fun v hv => noClip_of_input A M tol v tolPos (startNonzero v hv) _ hsM (noClipInput v hv))
 
-/-- **clause `stopExact` from the inputs**: a single start vector runs to the cap `min max_iters n` (so for
-`max_iters ≤ n` the first alternative of `stopExact` holds) when the Krylov distances neither clip nor trigger the
-relative stopping test -/
+/-- **clause `stopExact` from the inputs, correct range (round 3)**: a single start vector runs to the cap
+`min max_iters n` (so for `max_iters ≤ n` the first alternative of `stopExact` holds) when the Krylov distances
+`d_j = dist(A^j v, K_j(A, v))` do not clip before the LAST step (`i + 1 < cap`; nothing is asked of the last step,
+which at `cap = dim E` is necessarily an exact breakdown) and never trigger the relative stopping test.
+Witness at full dimension: `C15_hess3_inputs_witness`. -/
+theorem C15_runs_to_cap_of_inputs (A : E →ₗ[𝕜] E) (n M : Nat) (tol : ℝ) (tolPos : 0 < tol) (v : E)
+    (startNonzero : v ≠ 0)
+    (noClipBeforeLast : ∀ i, i + 1 < min M n → tol / 2 * krylovDist A v i ≤ krylovDist A v (i + 1))
+    (noEarlyStopInput : ∀ k, 1 ≤ k → k < min M n →
+      tol * krylovDist A v 1 * krylovDist A v (k - 1) < krylovDist A v k * krylovDist A v 0) :
+    (runE A n M tol [v]).idx = min M n :=
+  run_idx_eq_cap_of_input_lt A M tol v n tolPos startNonzero noClipBeforeLast noEarlyStopInput
+
+/-- round-2 statement, kept as a COROLLARY of `C15_runs_to_cap_of_inputs`: its `noClipInput` ranges over `i < cap`,
+one index more than needed.  It is satisfiable only when `cap <` grade of `v` (e.g. `Hess3`, `max_iters = 2`:
+`C15_hess3_inputs_witness`, last conjunct); at `cap = dim E` no input satisfies it (`C15_wide_range_unsatisfiable`). -/
 theorem C15_runs_to_cap_input (A : E →ₗ[𝕜] E) (n M : Nat) (tol : ℝ) (tolPos : 0 < tol) (v : E)
     (startNonzero : v ≠ 0)
     (noClipInput : ∀ i, i < min M n → tol / 2 * krylovDist A v i ≤ krylovDist A v (i + 1))
     (noEarlyStopInput : ∀ k, 1 ≤ k → k < min M n →
       tol * krylovDist A v 1 * krylovDist A v (k - 1) < krylovDist A v k * krylovDist A v 0) :
     (runE A n M tol [v]).idx = min M n :=
-  run_idx_eq_cap_of_input A M tol v n tolPos startNonzero noClipInput noEarlyStopInput
+  C15_runs_to_cap_of_inputs A n M tol tolPos v startNonzero (fun i hi => noClipInput i (by omega))
+    noEarlyStopInput
 
 /-- **`arnoldi_eigs` at full dimension, about the ACTUAL run** (`C15_eigs_complete` was about `colAt … n`): when the
 run executed `n = dim E` steps, every eigenpair `(μ, x)` of `A` gives the eigenpair `(μ, Qᴴ x)` of the matrix the
@@ -345,8 +366,45 @@ theorem C15_eigs_complete_run [FiniteDimensional 𝕜 E] (A : E →ₗ[𝕜] E) 
   rw [ranToDim] at hsM noClip ⊢
   exact C15_eigs_complete A n M tol tolPos v startNonzero dimE hn hsM noClip μ x hx heig
 
-/-- the same with every hypothesis on the inputs: `n = dim E ≤ max_iters`, Krylov distances without clip and
-without early stop -/
+/-- **`arnoldi_eigs` at full dimension with every hypothesis on the inputs, correct range (round 3)**:
+`n = dim E ≤ max_iters`, Krylov distances without clip BEFORE the last step (`i + 1 < n`; the `n`-th step of a
+full-dimensional run is an exact breakdown, `d_n = 0`) and without early stop.  Then the run makes `n` steps and every
+eigenpair `(μ, x)` of `A` gives the eigenpair `(μ, Qᴴ x)` of the matrix handed to `xnp.eig`.
+Witness: `C15_hess3_inputs_witness` (3 × 3). -/
+theorem C15_eigs_complete_of_inputs [FiniteDimensional 𝕜 E] (A : E →ₗ[𝕜] E) (n M : Nat)
+    (tol : ℝ) (tolPos : 0 < tol) (v : E) (startNonzero : v ≠ 0)
+    (dimE : Module.finrank 𝕜 E = n) (hn : 0 < n) (hnM : n ≤ M)
+    (noClipBeforeLast : ∀ i, i + 1 < n → tol / 2 * krylovDist A v i ≤ krylovDist A v (i + 1))
+    (noEarlyStopInput : ∀ k, 1 ≤ k → k < n →
+      tol * krylovDist A v 1 * krylovDist A v (k - 1) < krylovDist A v k * krylovDist A v 0)
+    (μ : 𝕜) (x : E) (hx : x ≠ 0) (heig : A x = μ • x) :
+    (runE A n M tol [v]).idx = n ∧
+    (∃ a, a < (runE A n M tol [v]).idx ∧ ⟪(colAt A M tol v (runE A n M tol [v]).idx).q a, x⟫_𝕜 ≠ 0) ∧
+    ∀ l, l < (runE A n M tol [v]).idx → ∑ i ∈ range (runE A n M tol [v]).idx,
+      ((eigsMatrix trimPaddingInEigs M (runE A n M tol [v]).idx
+        (colAt A M tol v (runE A n M tol [v]).idx)).getD l #[]).getD i 0 *
+          ⟪(colAt A M tol v (runE A n M tol [v]).idx).q i, x⟫_𝕜 =
+        μ * ⟪(colAt A M tol v (runE A n M tol [v]).idx).q l, x⟫_𝕜 := by
+  have hcap : min M n = n := min_eq_right hnM
+  have hidx : (runE A n M tol [v]).idx = n := by
+    rw [run_idx_eq_cap_of_input_lt A M tol v n tolPos startNonzero (by rw [hcap]; exact noClipBeforeLast)
+      (by rw [hcap]; exact noEarlyStopInput), hcap]
+  refine ⟨hidx, ?_⟩
+  apply C15_eigs_complete_run A n M tol tolPos v startNonzero dimE hn hidx _ μ x hx heig
+  rw [hidx]
+  exact unclipped_before_last_of_input A M tol v tolPos startNonzero n hnM noClipBeforeLast
+
+/-- **the round-2 range was unsatisfiable**: at `n = dim E ≤ max_iters` no input satisfies `tol/2 · d_i ≤ d_{i+1}` for
+ALL `i < n` (the `n`-th step is an exact breakdown).  So `C15_eigs_complete_input` below is vacuous as stated; it is
+kept (as a corollary of `C15_eigs_complete_of_inputs`) only because statements are never deleted. -/
+theorem C15_wide_range_unsatisfiable [FiniteDimensional 𝕜 E] (A : E →ₗ[𝕜] E) (n M : Nat)
+    (tol : ℝ) (tolPos : 0 < tol) (v : E) (startNonzero : v ≠ 0)
+    (dimE : Module.finrank 𝕜 E = n) (hn : 0 < n) (hnM : n ≤ M) :
+    ¬ ∀ i, i < n → tol / 2 * krylovDist A v i ≤ krylovDist A v (i + 1) :=
+  wide_range_unsatisfiable A M tol v tolPos startNonzero n dimE hn hnM
+
+/-- round-2 statement (VACUOUS: see `C15_wide_range_unsatisfiable`; use `C15_eigs_complete_of_inputs`), kept as a
+corollary of the correctly ranged theorem -/
 theorem C15_eigs_complete_input [FiniteDimensional 𝕜 E] (A : E →ₗ[𝕜] E) (n M : Nat)
     (tol : ℝ) (tolPos : 0 < tol) (v : E) (startNonzero : v ≠ 0)
     (dimE : Module.finrank 𝕜 E = n) (hn : 0 < n) (hnM : n ≤ M)
@@ -360,16 +418,9 @@ theorem C15_eigs_complete_input [FiniteDimensional 𝕜 E] (A : E →ₗ[𝕜] E
       ((eigsMatrix trimPaddingInEigs M (runE A n M tol [v]).idx
         (colAt A M tol v (runE A n M tol [v]).idx)).getD l #[]).getD i 0 *
           ⟪(colAt A M tol v (runE A n M tol [v]).idx).q i, x⟫_𝕜 =
-        μ * ⟪(colAt A M tol v (runE A n M tol [v]).idx).q l, x⟫_𝕜 := by
-  have hcap : min M n = n := min_eq_right hnM
-  have hidx : (runE A n M tol [v]).idx = n := by
-    rw [run_idx_eq_cap_of_input A M tol v n tolPos startNonzero (by rw [hcap]; exact noClipInput)
-      (by rw [hcap]; exact noEarlyStopInput), hcap]
-  refine ⟨hidx, ?_⟩
-  apply C15_eigs_complete_run A n M tol tolPos v startNonzero dimE hn hidx _ μ x hx heig
-  rw [hidx]
-  intro i hi
-  exact (noBreakdown_iff_krylovDist A M tol v tolPos startNonzero n hnM).mpr noClipInput i (by omega)
+        μ * ⟪(colAt A M tol v (runE A n M tol [v]).idx).q l, x⟫_𝕜 :=
+  C15_eigs_complete_of_inputs A n M tol tolPos v startNonzero dimE hn hnM
+    (fun i hi => noClipInput i (by omega)) noEarlyStopInput μ x hx heig
 
 /-- **the output of the model's `arnoldi_eigs`** (`Arnoldi.arnoldiEigs`, `xnp.eig` a parameter): it returns the state of
 the run, and — if `eig` meets its contract `EigPairs` on the one matrix it is given — every returned pair
@@ -463,6 +514,87 @@ theorem C15_hess3_witness :
   · rw [arnoldiEigs_single]
     rfl
 
+/-- **witness for the input-level bundles (round 3)** on the 3 × 3 system `A = [[1,1,0],[2,1,1],[0,3,1]]`, `v = e₀`,
+`tol = 1/100`: the Krylov distances are `d₀ … d₃ = 1, 2, 6, 0`; hence at `max_iters = n = 3 = dim E` all hypotheses of
+`C15_runs_to_cap_of_inputs` and `C15_eigs_complete_of_inputs` hold (`noClipBeforeLast`, `noEarlyStopInput`, `dimE`,
+`hnM`), the run makes 3 steps, and the eigenpair `(1, e₀ − 2 e₂)` of `A` is carried to the matrix handed to `eig`;
+the WIDE range of the round-2 statements fails here (`d₃ = 0`), but holds for `max_iters = 2` (cap below the grade),
+which witnesses the bundle of the corollary `C15_runs_to_cap_input` -/
+theorem C15_hess3_inputs_witness :
+    (krylovDist Hess3.A (Hess3.e 0) 0 = 1 ∧ krylovDist Hess3.A (Hess3.e 0) 1 = 2 ∧
+      krylovDist Hess3.A (Hess3.e 0) 2 = 6 ∧ krylovDist Hess3.A (Hess3.e 0) 3 = 0) ∧
+    Module.finrank ℝ Hess3.E3 = 3 ∧
+    (∀ i, i + 1 < min 3 3 → (1 / 100 : ℝ) / 2 * krylovDist Hess3.A (Hess3.e 0) i ≤
+      krylovDist Hess3.A (Hess3.e 0) (i + 1)) ∧
+    (∀ k, 1 ≤ k → k < min 3 3 →
+      (1 / 100 : ℝ) * krylovDist Hess3.A (Hess3.e 0) 1 * krylovDist Hess3.A (Hess3.e 0) (k - 1) <
+        krylovDist Hess3.A (Hess3.e 0) k * krylovDist Hess3.A (Hess3.e 0) 0) ∧
+    (runE Hess3.A 3 3 (1 / 100) [Hess3.e 0]).idx = 3 ∧
+    (¬ ∀ i, i < 3 → (1 / 100 : ℝ) / 2 * krylovDist Hess3.A (Hess3.e 0) i ≤
+      krylovDist Hess3.A (Hess3.e 0) (i + 1)) ∧
+    ((∀ i, i < min 2 3 → (1 / 100 : ℝ) / 2 * krylovDist Hess3.A (Hess3.e 0) i ≤
+      krylovDist Hess3.A (Hess3.e 0) (i + 1)) ∧
+     (∀ k, 1 ≤ k → k < min 2 3 →
+      (1 / 100 : ℝ) * krylovDist Hess3.A (Hess3.e 0) 1 * krylovDist Hess3.A (Hess3.e 0) (k - 1) <
+        krylovDist Hess3.A (Hess3.e 0) k * krylovDist Hess3.A (Hess3.e 0) 0) ∧
+     (runE Hess3.A 3 2 (1 / 100) [Hess3.e 0]).idx = 2) := by
+  obtain ⟨d0, d1, d2, d3⟩ := Hess3.krylovDist_vals
+  have hgrow : ∀ i, i < 2 → (1 / 100 : ℝ) / 2 * krylovDist Hess3.A (Hess3.e 0) i ≤
+      krylovDist Hess3.A (Hess3.e 0) (i + 1) := by
+    intro i hi
+    have : i = 0 ∨ i = 1 := by omega
+    rcases this with rfl | rfl
+    · rw [d0, d1]; norm_num
+    · rw [d1, d2]; norm_num
+  have hstop : ∀ k, 1 ≤ k → k < 3 →
+      (1 / 100 : ℝ) * krylovDist Hess3.A (Hess3.e 0) 1 * krylovDist Hess3.A (Hess3.e 0) (k - 1) <
+        krylovDist Hess3.A (Hess3.e 0) k * krylovDist Hess3.A (Hess3.e 0) 0 := by
+    intro k hk1 hk
+    have : k = 1 ∨ k = 2 := by omega
+    rcases this with rfl | rfl
+    · rw [d0, d1]; norm_num
+    · rw [d0, d1, d2]; norm_num
+  have h33 : min 3 3 = 3 := rfl
+  have h23 : min 2 3 = 2 := rfl
+  refine ⟨⟨d0, d1, d2, d3⟩, Hess3.finrank_E3, ?_, ?_, ?_, ?_, ?_, ?_, ?_⟩
+  · intro i hi; exact hgrow i (by omega)
+  · intro k hk1 hk; exact hstop k hk1 (by omega)
+  · exact C15_runs_to_cap_of_inputs Hess3.A 3 3 (1 / 100) (by norm_num) (Hess3.e 0) Hess3.e0_ne
+      (fun i hi => hgrow i (by omega)) (fun k hk1 hk => hstop k hk1 (by omega))
+  · intro h
+    have := h 2 (by norm_num)
+    rw [d2, d3] at this
+    norm_num at this
+  · intro i hi; exact hgrow i (by omega)
+  · intro k hk1 hk; exact hstop k hk1 (by omega)
+  · exact C15_runs_to_cap_input Hess3.A 3 2 (1 / 100) (by norm_num) (Hess3.e 0) Hess3.e0_ne
+      (fun i hi => hgrow i (by omega)) (fun k hk1 hk => hstop k hk1 (by omega))
+
+/-- the conclusion of `C15_eigs_complete_of_inputs` on that witness, for the eigenpair `(1, e₀ − 2 e₂)` of `A` -/
+theorem C15_hess3_eigs_complete_witness :
+    (runE Hess3.A 3 3 (1 / 100) [Hess3.e 0]).idx = 3 ∧
+    ∀ l, l < (runE Hess3.A 3 3 (1 / 100) [Hess3.e 0]).idx →
+      ∑ i ∈ range (runE Hess3.A 3 3 (1 / 100) [Hess3.e 0]).idx,
+        ((eigsMatrix trimPaddingInEigs 3 (runE Hess3.A 3 3 (1 / 100) [Hess3.e 0]).idx
+          (colAt Hess3.A 3 (1 / 100) (Hess3.e 0) (runE Hess3.A 3 3 (1 / 100) [Hess3.e 0]).idx)).getD l #[]).getD i 0 *
+            ⟪(colAt Hess3.A 3 (1 / 100) (Hess3.e 0) (runE Hess3.A 3 3 (1 / 100) [Hess3.e 0]).idx).q i,
+              Hess3.e 0 - (2 : ℝ) • Hess3.e 2⟫_ℝ =
+        1 * ⟪(colAt Hess3.A 3 (1 / 100) (Hess3.e 0) (runE Hess3.A 3 3 (1 / 100) [Hess3.e 0]).idx).q l,
+              Hess3.e 0 - (2 : ℝ) • Hess3.e 2⟫_ℝ := by
+  obtain ⟨_, hdim, h1, h2, _⟩ := C15_hess3_inputs_witness
+  have hx : Hess3.e 0 - (2 : ℝ) • Hess3.e 2 ≠ 0 := by
+    intro h
+    have := congrArg (fun z => ⟪Hess3.e 0, z⟫_ℝ) h
+    simp only [inner_sub_right, inner_smul_right, inner_zero_right] at this
+    rw [Hess3.e_ON 0 (by norm_num) 0 (by norm_num), Hess3.e_ON 0 (by norm_num) 2 (by norm_num)] at this
+    norm_num at this
+  have heig : Hess3.A (Hess3.e 0 - (2 : ℝ) • Hess3.e 2) = (1 : ℝ) • (Hess3.e 0 - (2 : ℝ) • Hess3.e 2) := by
+    rw [map_sub, map_smul, Hess3.A_e0, Hess3.A_e2]
+    module
+  have := C15_eigs_complete_of_inputs Hess3.A 3 3 (1 / 100) (by norm_num) (Hess3.e 0) Hess3.e0_ne hdim
+    (by norm_num) (le_refl _) h1 h2 1 _ hx heig
+  exact ⟨this.1, this.2.2⟩
+
 /-- **counter-witness for the input form of `noClip`**: `A = ¼·[[0,-1],[1,0]]`, `v = e₁`, `tol = 1`: the condition on the
 inputs fails (`d₁ = ¼ < tol/2 · d₀`), in accordance with `C15_noClip_clause_needed` -/
 theorem C15_noClipInput_counter_witness : ¬ NoClipInput (rot (1 / 4)) (1 : ℂ) 1 1 := by
@@ -507,6 +639,11 @@ theorem C15_full_relation_input (A : E →ₗ[𝕜] E) (n M : Nat) (tol : ℝ) (
 #print axioms C15_noClip_iff_input
 #print axioms C15_partial_input
 #print axioms C15_runs_to_cap_input
+#print axioms C15_runs_to_cap_of_inputs
+#print axioms C15_eigs_complete_of_inputs
+#print axioms C15_wide_range_unsatisfiable
+#print axioms C15_hess3_inputs_witness
+#print axioms C15_hess3_eigs_complete_witness
 #print axioms C15_eigs_complete_run
 #print axioms C15_eigs_complete_input
 #print axioms C15_arnoldiEigs_sound
